@@ -23,6 +23,8 @@ pub enum Shape {
     Names,
     Nesting,
     Fragments,
+    /// an instruction whose operand is within a few bytes of what it can encode, with a forward reference
+    Borderline,
 }
 
 #[derive(Clone, Debug, Hash, PartialEq, Eq, Serialize, Deserialize)]
@@ -228,6 +230,21 @@ pub fn project_of(c: &Case) -> (Project, u64) {
                 t.push_str(&format!(".segment \"{}\" {{ {} }}\n", names[i], body.replace('\n', "\n    ")));
             }
             Project::single(&t)
+        }
+        Shape::Borderline => {
+            let n = 122 + e.below(11);
+            let pre = *e.pick(&["", "dey\n.align 4\n", "lda later\n", ".align 8\nearly2:\n", "asl wc\n", ".byte 0, 0\n"][..]);
+            let k = 122 + e.below(10);
+            let probe = match e.below(6) {
+                0 => "bne later".to_string(),
+                1 => "beq later\nbne later".to_string(),
+                2 => format!("ldx #later - early + {}", k),
+                3 => format!("lda #later - early + {}\nbne later", k),
+                4 => format!(".loop later - early - {} {{ nop }}", k),
+                _ => format!("bne later\n.align later - early - {}", 100 + e.below(40)),
+            };
+            let post = *e.pick(&["", "bmi early\n", ".const wc = $f0 + 4\nasl wc\n", "jmp early\n", "bvs early\n.const wc = 7\n"][..]);
+            Project::single(&format!("early:\n{}{}\n.loop {} {{ nop }}\nlater:\n{}rts\n", pre, probe, n, post))
         }
         Shape::NestedLoops => {
             let a = 1 + e.below(14);
@@ -592,9 +609,9 @@ pub fn strategy(shapes: Vec<Shape>) -> impl Strategy<Value = Case> {
 }
 
 pub fn run_check(ctx: &mut Ctx) {
-    ctx.rule = "projects of 9 shapes (grammar programs with hostile trivia; the same with character mutations; fragments of the example sources; extreme integers from a boundary list as arguments of .align/.loop/* =/shifts/division/segment and bank options; import graphs over <= 4 files incl. self-import, cycles, diamonds, missing files, sub-directories; mutually dependent segments; nested loops with branches at the edge of range; hostile names; nesting up to depth 64) run through parse -> codegen(build) -> merge/listing/vice -> format -> codegen(greedy analysis) in worker sub-processes. oracle: no panic, no abnormal exit, no repeated pass-state digest (proof of non-termination), binary or diagnostic, diagnostic spans inside project files. non-trivial = >= 2 files, extreme integers, >= 3 passes or mutated; distinct by case hash".into();
+    ctx.rule = "projects of 10 shapes (grammar programs with hostile trivia; the same with character mutations; fragments of the example sources; extreme integers from a boundary list as arguments of .align/.loop/* =/shifts/division/segment and bank options; import graphs over <= 4 files incl. self-import, cycles, diamonds, missing files, sub-directories; mutually dependent segments; nested loops with branches at the edge of range; forward branches, immediates, loop counts and alignments whose value is within a few bytes of the limit; hostile names; nesting up to depth 64) run through parse -> codegen(build) -> merge/listing/vice -> format -> codegen(greedy analysis) in worker sub-processes. oracle: no panic, no abnormal exit, no repeated pass-state digest (proof of non-termination), binary or diagnostic, diagnostic spans inside project files. non-trivial = >= 2 files, extreme integers, >= 3 passes or mutated; distinct by case hash".into();
     ctx.assumptions.push("pass observer hook digest covers everything that determines the next pass; a watchdog kill or the pass bound is inconclusive, never a violation".into());
-    let all = vec![Shape::Grammar, Shape::Mutated, Shape::Extreme, Shape::Extreme, Shape::ImportGraph, Shape::ImportGraph, Shape::SegmentDeps, Shape::NestedLoops, Shape::Names, Shape::Nesting, Shape::Fragments];
+    let all = vec![Shape::Grammar, Shape::Mutated, Shape::Extreme, Shape::Extreme, Shape::ImportGraph, Shape::ImportGraph, Shape::SegmentDeps, Shape::NestedLoops, Shape::Names, Shape::Nesting, Shape::Fragments, Shape::Borderline];
     let n = ctx.tier.pick(64_000, 1_600_000);
     let all2 = all.clone();
     ctx.campaign_parallel("all-shapes", n, 16, move || strategy(all2.clone()), prop, to_json);
